@@ -24,6 +24,10 @@ type RenderOpts struct {
 var qualRe = regexp.MustCompile(`«([^»]+)»\.`)
 var typeTok = regexp.MustCompile(`⟦(\d+)⟧`)
 var localRe = regexp.MustCompile(`\bv(\d+)\b`)
+var ptrSpellStar = regexp.MustCompile(`\*§P§([^|§]+)\|([^§]+)§`)
+var ptrSpellPlain = regexp.MustCompile(`§P§([^|§]+)\|([^§]+)§`)
+var parenPtrStar = regexp.MustCompile(`\*§Q§([^§]+)§`)
+var parenPtrPlain = regexp.MustCompile(`§Q§([^§]+)§`)
 
 // TypeText is the default spelling of a type mention.
 func TypeText(t *Type) string {
@@ -67,6 +71,11 @@ func Render(p *Prog, o RenderOpts) map[string]string {
 					}
 					return TypeText(u.T)
 				})
+				// pointer spellings: "*" + §P§ptrAlias|plainAlias§ -> ptrAlias ; without a leading star -> plainAlias
+				s = ptrSpellStar.ReplaceAllString(s, "$1")
+				s = ptrSpellPlain.ReplaceAllString(s, "$2")
+				s = parenPtrStar.ReplaceAllString(s, "(*$1)")
+				s = parenPtrPlain.ReplaceAllString(s, "($1)")
 				s = qualRe.ReplaceAllStringFunc(s, func(m string) string {
 					path := m[len("«") : len(m)-len("».")]
 					if path == f.EffPkgPath() {
@@ -287,7 +296,11 @@ func nearMiss(d string, r *base.Rand) (text string, detach bool) {
 		kw, rest = ann[:i], ann[i:]
 	}
 	kind := ""
-	switch r.Intn(12) {
+	switch r.Intn(14) {
+	case 12:
+		kind, text = "other-case-then-lowercase-mention", "// @"+strings.ToUpper(kw[1:2])+kw[2:]+rest+" is how the old tool spelled it, we never adopted "+kw
+	case 13:
+		kind, text = "upper-case-then-lowercase-mention", "// "+strings.ToUpper(kw)+rest+" (see "+kw+")"
 	case 0:
 		kind, text = "mid-sentence", "// this type follows the "+ann+" convention"
 	case 1:
